@@ -143,8 +143,44 @@ func undecodableStreamRequests(r *Run) {
 	}
 }
 
+// trailerAfterServerDeadline: a streaming reply ends with exactly one trailer frame also when the deadline
+// taken from GRPC-Timeout has expired by the time the handler returns (the request itself is still live).
+func trailerAfterServerDeadline(r *Run) {
+	for i := 0; i < r.Budget(4, 40); i++ {
+		nmsg := i % 3
+		var herr error
+		if i%2 == 1 {
+			herr = status.Error(codes.Aborted, "late")
+		}
+		svr := &scriptServer{}
+		svr.bidi = func(s grpchantesting.TestService_BidiStreamServer) error {
+			for j := 0; j < nmsg; j++ {
+				s.Send(&Msg{Count: int32(j)})
+			}
+			<-s.Context().Done() // outlive the GRPC-Timeout deadline
+			return herr
+		}
+		hs := httpgrpc.NewServer()
+		grpchantesting.RegisterTestServiceServer(hs, svr)
+		req := httptest.NewRequest("POST", mBidi, bytes.NewReader(nil))
+		req.Header.Set("Content-Type", httpgrpc.StreamRpcContentType_V1)
+		req.Header.Set("GRPC-Timeout", "15m")
+		rec := httptest.NewRecorder()
+		hs.ServeHTTP(rec, req)
+		data, trs := walkFrames(rec.Body.Bytes())
+		c := map[string]interface{}{"op": "stream-server-deadline", "messages": nmsg, "handler_error": herr != nil, "grpc_timeout": "15m"}
+		r.Eval(sprintf("stream-server-deadline %d %v", nmsg, herr != nil), true)
+		r.Count("stream-server-deadline")
+		if len(trs) != 1 || len(data) != nmsg {
+			r.Violate("http-server/stream-reply/no-trailer-after-deadline", "a streaming reply always ends with exactly one trailer frame",
+				sprintf("handler returned after the GRPC-Timeout deadline had expired (request still live): reply has %d data frames (want %d) and %d trailer frames (want 1)", len(data), nmsg, len(trs)), c, hexOrDash(rec.Body.Bytes()))
+		}
+	}
+}
+
 func suiteC11(r *Run) {
 	undecodableStreamRequests(r)
+	trailerAfterServerDeadline(r)
 	r.Rule = "HTTP requests of all shapes (methods, Content-Type strings with parameters/case/unknown types, header sets with invalid base64 in -bin headers and bad GRPC-Timeout, valid/garbage/empty bodies) against every registered method kind through httptest.ResponseRecorder and the real Server (404 via the mux); handler-call counters; reply frames parsed. Non-trivial: request reaches a gate decision other than the default success path or carries a handler script; distinct by full request tuple."
 	r.Assumptions = append(r.Assumptions, "mime.ParseMediaType (its answer is passed to the model)", "codec Unmarshal (its answer is passed to the model)", "http.ServeMux 404 for unknown paths")
 	rng := r.Rng
